@@ -337,9 +337,38 @@ def r07d(ctx, rep, cr):
             rep.holds('R07d', f, 'validate must-pass', '')
 
 
+def r07e(ctx, rep, cr):
+    rep.rule('R07e', 'a loader answers from the payload: load_v3, SlabRouter::from_bytes and load_snapshot_compressed reach a success return '
+                     'only through the Ok edge of the payload decode (bitcode::deserialize); no header field (an estimated entry count, a '
+                     'flag) selects a path that returns a store without decoding what was saved')
+    n = 0
+    for name in (TS + 'snapshot::load_v3', SR + '::from_bytes', TS + 'TensorStore::load_snapshot_compressed'):
+        f = rep.require_fn('R07e', cr, name)
+        if f is None:
+            continue
+        n += 1
+        uses = A.Uses(f)
+        dec = A.calls_to(f, ('re', r'^bitcode::deserialize$'))
+        ok = set()
+        for c in dec:
+            ok |= A.call_outcome(f, c, uses).ok
+        if not dec or not ok:
+            rep.violation('R07e', f, 'no-decode', f.loc(), 'anchor-missing: the loader has no bitcode::deserialize call with a recognised Ok edge')
+            continue
+        rets = lib.success_return_reachable(f, [0], cut_edges=ok)
+        if rets:
+            rep.violation('R07e', f, 'decode-bypass', f.loc(lib.first_line(f, rets[0])),
+                          'the loader can return Ok without having decoded the payload: whatever the skipped path assumes about the file '
+                          '(e.g. a header count that the writer only estimates) decides what comes back, not what was saved')
+        else:
+            rep.holds('R07e', f, 'decode must-pass', '%d decode call(s)' % len(dec))
+    rep.floor('R07e', 'loaders', n, 3)
+
+
 def run(ctx, rep):
     cr = ctx.crate('tensor_store')
     r07a(ctx, rep, cr)
     r07b(ctx, rep, cr)
     r07c(ctx, rep, cr)
     r07d(ctx, rep, cr)
+    r07e(ctx, rep, cr)
